@@ -5,6 +5,7 @@
 package c19
 
 import (
+	hcl "Havoc/pkg/profile/yaotl"
 	"fmt"
 	"reflect"
 	"strings"
@@ -138,6 +139,10 @@ type Schema struct {
 
 	Spec   hcldec.Spec
 	GoType reflect.Type
+	// two-pass decoding: GoTypeRemain has, for every block type, a struct of the labels and
+	// the rest of the block body (`yaotl:",remain"`); InnerTypes[i] decodes that rest
+	GoTypeRemain reflect.Type
+	InnerTypes   map[int]reflect.Type
 }
 
 func (s *Schema) Codes() []string {
@@ -173,6 +178,7 @@ func NewSchema(kinds []Kind) *Schema {
 	s.Key = strings.Join(codes, ",")
 	s.Spec = s.buildSpec()
 	s.GoType = s.buildGoType()
+	s.GoTypeRemain, s.InnerTypes = s.buildGoTypeRemain()
 	return s
 }
 
@@ -316,6 +322,57 @@ func (s *Schema) buildGoType() reflect.Type {
 		fields = append(fields, reflect.StructField{Name: fname, Type: ft, Tag: tag(b.Name, "block")})
 	}
 	return reflect.StructOf(fields)
+}
+
+var bodyType = reflect.TypeOf((*hcl.Body)(nil)).Elem()
+
+// buildGoTypeRemain: like buildGoType, but a block struct holds its labels and the remaining
+// body; the inner attributes are decoded from that body in a second pass.
+func (s *Schema) buildGoTypeRemain() (reflect.Type, map[int]reflect.Type) {
+	var fields []reflect.StructField
+	inner := map[int]reflect.Type{}
+	for i, it := range s.Items {
+		fname := fmt.Sprintf("F%d", i)
+		if it.Attr != nil {
+			t := goType(it.Attr.T)
+			if !it.Attr.Req {
+				t = reflect.PtrTo(t)
+			}
+			fields = append(fields, reflect.StructField{Name: fname, Type: t, Tag: tag(it.Attr.Name, "")})
+			continue
+		}
+		b := it.Block
+		var bf, af []reflect.StructField
+		for li := 0; li < b.NLabels; li++ {
+			bf = append(bf, reflect.StructField{Name: fmt.Sprintf("L%d", li), Type: reflect.TypeOf(""), Tag: tag(labelName(li), "label")})
+		}
+		bf = append(bf, reflect.StructField{Name: "Rest", Type: bodyType, Tag: reflect.StructTag(`yaotl:",remain"`)})
+		for ai, a := range b.Inner {
+			t := goType(a.T)
+			kind := ""
+			if !a.Req {
+				if a.T == TStr || a.T == TNum || a.T == TBool {
+					kind = "optional"
+				} else {
+					t = reflect.PtrTo(t)
+				}
+			}
+			af = append(af, reflect.StructField{Name: fmt.Sprintf("A%d", ai), Type: t, Tag: tag(a.Name, kind)})
+		}
+		inner[i] = reflect.StructOf(af)
+		bt := reflect.StructOf(bf)
+		var ft reflect.Type
+		switch b.Mode {
+		case BSingle:
+			ft = reflect.PtrTo(bt)
+		case BSingleReq:
+			ft = bt
+		default:
+			ft = reflect.SliceOf(bt)
+		}
+		fields = append(fields, reflect.StructField{Name: fname, Type: ft, Tag: tag(b.Name, "block")})
+	}
+	return reflect.StructOf(fields), inner
 }
 
 // ---- schema enumeration ---------------------------------------------------------
